@@ -34,4 +34,102 @@ def allUnits (files : Files) : List RUnit :=
 def longFunctions (files : Files) : List RUnit :=
   (allUnits files).filter fun u => decide (u.m.value > 30)
 
+/-! ## what a findings row must show
+
+Written from `utils.format_measurement`, `format_markdown._print_findings_without_repository`
+and `format_markdown._print_findings_with_repository`, NOT from the model functions
+`rowText / rowMarkdown / rowMarkdownRepo`. Two levels:
+
+* the LINE that Python builds for a unit (`textLine`, `markdownLine`, `markdownRepoLine`): the
+  f-strings of the source read as concatenations;
+* the CELLS (the model observes cell strings, see the header of `Model/Render.lean`):
+  `RowShowsText / RowShowsMarkdown / RowShowsMarkdownRepo` say which cell holds which stored
+  figure, `layoutText / layoutMarkdown / layoutMarkdownRepo` say where the cells sit in the line.
+
+`Props/C18.lean` proves that the rows of the model satisfy the cell relations one by one
+(`findings_rows_*`), that the cell relations determine the row and are determined by exactly
+the printed fields (`rowShows*_eq_iff`), and that cells laid out give the lines
+(`findings_lines_*`). -/
+
+/-- the sign before the name in the text listing (`utils.get_emoji_for_measurement`):
+U+2716 above 60 lines, U+26A0 above 30, else U+2713 -/
+def textMark (v : Int) : Str :=
+  if v > 60 then str "\u2716" else if v > 30 then str "\u26A0" else str "\u2713"
+
+/-- the sign before the name in both Markdown listings: U+274C above 60 lines, else U+26A0 -/
+def markdownMark (v : Int) : Str :=
+  if v > 60 then str "\u274C" else str "\u26A0"
+
+/-- `format_measurement(unit.file, unit.measurement)`: `path:line:column: length mark name` -/
+def textLine (u : RUnit) : Str :=
+  u.file ++ str ":" ++ fmtD u.m.line ++ str ":" ++ fmtD u.m.col ++ str ": " ++ fmtD u.m.value ++ str " " ++
+    textMark u.m.value ++ str " " ++ u.m.name
+
+/-- `_print_findings_without_repository`: `| path | line | column | length | mark name |` -/
+def markdownLine (u : RUnit) : Str :=
+  str "| " ++ u.file ++ str " | " ++ fmtD u.m.line ++ str " | " ++ fmtD u.m.col ++ str " | " ++
+    fmtD u.m.value ++ str " | " ++ markdownMark u.m.value ++ str " " ++ u.m.name ++ str " |"
+
+/-- `_print_findings_with_repository` (what the console shows: the `\[` of the source is
+rich's escape for a literal `[`):
+`| mark [name](https://github.com/owner/repo/blob/branch/path#Lline-Lendline) | length | path |` -/
+def markdownRepoLine (owner repo branch : Str) (u : RUnit) : Str :=
+  str "| " ++ markdownMark u.m.value ++ str " [" ++ u.m.name ++ str "](https://github.com/" ++ owner ++ str "/" ++
+    repo ++ str "/blob/" ++ branch ++ str "/" ++ u.file ++ str "#L" ++ fmtD u.m.line ++ str "-L" ++
+    fmtD u.m.endLine ++ str ") | " ++ fmtD u.m.value ++ str " | " ++ u.file ++ str " |"
+
+/-- A row of the TEXT findings listing shows the unit `u`: exactly six cells, in print order the
+file path, the start line, the start column, the length, the sign for that length and the
+name - each number in plain decimal (`str(...)`). The END line is not among them. -/
+structure RowShowsText (row : List Str) (u : RUnit) : Prop where
+  cells : row.length = 6
+  file : row[0]? = some u.file
+  line : row[1]? = some (fmtD u.m.line)
+  column : row[2]? = some (fmtD u.m.col)
+  length : row[3]? = some (fmtD u.m.value)
+  mark : row[4]? = some (textMark u.m.value)
+  name : row[5]? = some u.m.name
+
+/-- A row of the Markdown listing WITHOUT repository shows `u`: the same six cells with the
+Markdown sign. -/
+structure RowShowsMarkdown (row : List Str) (u : RUnit) : Prop where
+  cells : row.length = 6
+  file : row[0]? = some u.file
+  line : row[1]? = some (fmtD u.m.line)
+  column : row[2]? = some (fmtD u.m.col)
+  length : row[3]? = some (fmtD u.m.value)
+  mark : row[4]? = some (markdownMark u.m.value)
+  name : row[5]? = some u.m.name
+
+/-- A row of the Markdown listing WITH repository shows `u`: seven cells, in print order the
+sign, the name (link text), then inside the link the file path, the start line and the END
+line, then the length and the file path again. The start COLUMN is not among them. -/
+structure RowShowsMarkdownRepo (row : List Str) (u : RUnit) : Prop where
+  cells : row.length = 7
+  mark : row[0]? = some (markdownMark u.m.value)
+  name : row[1]? = some u.m.name
+  linkFile : row[2]? = some u.file
+  linkLine : row[3]? = some (fmtD u.m.line)
+  linkEndLine : row[4]? = some (fmtD u.m.endLine)
+  length : row[5]? = some (fmtD u.m.value)
+  file : row[6]? = some u.file
+
+/-- where the six cells of a text row sit in the printed line -/
+def layoutText : List Str → Option Str
+  | [f, l, c, v, e, n] => some (f ++ str ":" ++ l ++ str ":" ++ c ++ str ": " ++ v ++ str " " ++ e ++ str " " ++ n)
+  | _ => none
+
+/-- where the six cells of a Markdown row (no repository) sit in the printed line -/
+def layoutMarkdown : List Str → Option Str
+  | [f, l, c, v, e, n] =>
+    some (str "| " ++ f ++ str " | " ++ l ++ str " | " ++ c ++ str " | " ++ v ++ str " | " ++ e ++ str " " ++ n ++ str " |")
+  | _ => none
+
+/-- where the seven cells of a Markdown row (with repository) sit in the printed line -/
+def layoutMarkdownRepo (owner repo branch : Str) : List Str → Option Str
+  | [e, n, f, l, el, v, f'] =>
+    some (str "| " ++ e ++ str " [" ++ n ++ str "](https://github.com/" ++ owner ++ str "/" ++ repo ++ str "/blob/" ++
+      branch ++ str "/" ++ f ++ str "#L" ++ l ++ str "-L" ++ el ++ str ") | " ++ v ++ str " | " ++ f' ++ str " |")
+  | _ => none
+
 end CL.Render
